@@ -464,7 +464,10 @@ fn replay(args: &Args, path: &str) {
 }
 
 pub fn run(args: &Args) {
-    if let Some(p) = &args.replay { replay(args, p); return; }
+    if let Some(p) = &args.replay {
+        if replay_kind(p) == "migration_probe" { let mut o = Out::new(&args.out); replay_probe(&mut o, &mut |o| migration_probe(o)); }
+        replay(args, p); return;
+    }
     let mut out = Out::new(&args.out);
     out.rule = "a history = 6..28 calls (Bond/Unbond/Withdraw/donation; NewEpoch/Claim as environment) by 3 users over 2 bonding denoms + 1 foreign denom, \
                 block-time steps from {0, 1ns, period-1, period, period+1, 1s, 1 day}; non-trivial = at least 4 accepted lair calls of at least 3 different kinds; \
